@@ -166,7 +166,7 @@ PROPS.update({
     'C14': dict(
         level='proof',
         level_text='code half: Verus proves Standard::try_to_amino (length check, FIRST table row whose pattern contains the codon via the verified `contains`, InvalidCodon / AmbiguousTranslation otherwise), initialise_amino_to_iupac (inverse map = unique-row relation, same invariant as C15) and try_to_codon; data half: the 29 table rows are copied mechanically from the source text on every run (rule R15) and Verus discharges BY EVALUATION (assert by(compute)) that for all 15^3 gap-free codons first-match translation is sound and complete against NCBI table 1 (every concrete DNA codon inside the codon codes for the returned amino acid; no row matches only if they disagree) and that for all 21 amino symbols a unique row is an exact pattern (all and only its codons, translating back) while several rows mean no exact single pattern exists; composite lemmas join the halves (bit-level contains = mask-level match)',
-        level_note=B_NOTE + '; additionally ASSUMES R15 (each iupac!("XYZ") literal denotes the symbols X,Y,Z - property C16, not claimed - and Amino::V displays as V / X as *: layer L, C05) and R16 (a lazily initialised static holds what its initialiser returns: std OnceLock); both are cross-checked by an EXHAUSTIVE native enumeration of the finite domain (16^3 codons, 21 amino symbols) on the real statics, labelled bounded stand-in',
+        level_note=B_NOTE + '; additionally ASSUMES R15 (each iupac!("XYZ") literal denotes the symbols X,Y,Z - property C16, whose per-character core is proved and whose glue is bounded - and Amino::V displays as V / X as *: layer L, C05) and R16 (a lazily initialised static holds what its initialiser returns: std OnceLock); both are cross-checked by an EXHAUSTIVE native enumeration of the finite domain (16^3 codons, 21 amino symbols) on the real statics, labelled bounded stand-in',
         technique='deductive verification (Verus) of the lookup code + table data extracted mechanically and decided by evaluation inside the verifier (by(compute))',
         verus=[dict(name='c14', mode='T', roots=['std.code', 'std.reverse', 'std.data_fwd', 'std.data_rev', 'std.forward_lemma', 'std.reverse_lemma', 'iupac.contains'])],
         standin=True,
@@ -179,6 +179,15 @@ PROPS.update({
         verus=[dict(name='c15', mode='T', roots=['translation.codontable', 'translation.lookup', 'translation.try_to_amino', 'seq.borrow', 'slice.hash', 'seq.hash', 'slice.eq'])],
         standin=True,
     ),
+    'C16': dict(
+        level='other',
+        level_text='mixed: (proved) the per-character tables of the dna!/iupac! scanners are copied from bio-seq-derive/src/seqarray.rs on every run (rule R17) and Verus decides by evaluation, for all 256 byte values, that every character the runtime parser accepts is mapped by the macro to exactly BITS bits spelling that symbol code, bit 0 first, with no duplicate rows, and that the scanners have NO row for any other character (IUPAC: except X, which the module documentation lists as a spelling of the gap), so the fall-through `_ => Err` arm is what every other character reaches; SeqArray deref (first N*BITS bits of the word array) is verified in C03; (bounded over programs) token generation, bitarr!, word counting and the static are glue: generated literals of length 0..40, word-boundary lengths up to 257 (thorough 2049), every symbol at several positions, kmer! for K = 1..32 are expanded by the REAL macros when the harness crate is compiled against the working tree and compared with runtime parsing (==, len, symbols, hash, display, raw image); invalid literals (fixed set + every lower-case alphabet letter + random non-alphabet bytes) are compiled alone and must fail to compile while the control program of valid literals compiles',
+        level_note='the quantifier ranges over programs (each literal is a separate macro expansion): the macro code works on syn/quote token streams, outside Verus and Kani; only the per-character core is decided deductively, the rest is one concrete execution per generated literal',
+        technique='table extraction + evaluation inside Verus for the per-character core; compile-and-compare of generated programs for the glue (bounded)',
+        explanation='obligations count the Verus verification conditions of the per-character lemma only; the literal programs are listed under bounded_standins (cases, rejects) and are not proofs',
+        verus=[dict(name='c16', mode='T', roots=['lit.tables', 'seqarray.deref'])],
+        c16=True,
+    ),
     'C17': dict(
         level='other',
         level_text='complete per declaration, bounded over declarations: tools/gen_c17.py writes enum declarations (a fixed boundary set: 2 and 40 variants, widths 1/3/7/8, default width for max discriminant 1..254 incl. every power-of-two boundary, binary/hex/byte literals, alternatives, display characters, over-wide declared width; plus VERIF_SEED-random ones, quick 12 / thorough 60); the REAL #[derive(Codec)] expands them when the harness crate is compiled; the codec contract (width, to_bits = discriminant, decoders accept exactly discriminants and alternatives, to_char / try_from_ascii, everything else refused, items() in declaration order) is proved by Kani for all 256 bytes per declaration against an oracle computed from the declaration text by the generator (independent of the macro), and re-executed natively; malformed declarations are compiled alone and must be refused with the derive own diagnostic',
@@ -190,6 +199,5 @@ PROPS.update({
 })
 
 NOT_APPLICABLE = {
-    'C16': 'quantifies over programs (each literal is a separate macro expansion); the deciding code is proc-macro code over syn token trees: Verus has no specs for it, Kani ICEs on it; per-literal checks are executions, not deductions (DESIGN.md section 6)',
     'C18': 'no bio-seq function text exists (two cfg_attr derives); behaviour is bitvec serde + bincode/serde_json, external generic visitor code outside both verifiers (DESIGN.md section 6)',
 }
